@@ -364,3 +364,48 @@ package apicodec
 //@   opaque-callee decodeKey
 //@   loop 1 invariant idx: -1 <= rangeindex && rangeindex < len(keys)
 //@   loop 1 step closing: rangeindex == len(keys) - 1 && rangeindex > 0 && (k == "" || k >= c.endKey) ==> len(ks) == prev(len(ks)) + 1 && ks[len(ks)-1] == ""
+
+// ---- API v1: keys travel unchanged; region keys go through the memory-comparable layer only (C15: transparency of the
+// codec that is used when no keyspace is configured) ---------------------------------------------------------------------------
+//@ func (*codecV1) EncodeKey
+//@   prop C15
+//@   bytes: key
+//@   modifies nothing
+//@   ensures result == key
+//@ func (*codecV1) DecodeKey
+//@   prop C15
+//@   bytes: key
+//@   modifies nothing
+//@   ensures result1 == nil && result0 == key
+//@ func (*codecV1) EncodeRange
+//@   prop C15
+//@   bytes: key
+//@   modifies nothing
+//@   ensures result0 == start && result1 == end
+//@ func (*codecV1) DecodeRange
+//@   prop C15
+//@   bytes: key
+//@   modifies nothing
+//@   ensures result2 == nil && result0 == start && result1 == end
+//@ func (*codecV1) EncodeRegionKey
+//@   prop C15
+//@   bytes: key
+//@   modifies nothing
+//@   ensures result == menc(key)
+// the empty region key (an unbounded end / the start of the key space) is not an encoding and stays empty
+//@ func (*codecV1) DecodeRegionKey
+//@   prop C15
+//@   bytes: key
+//@   modifies nothing
+//@   ensures empty: encodedKey == "" ==> result1 == nil && result0 == ""
+//@   ensures inverse: result1 == nil && encodedKey != "" ==> menc(result0) == encodedKey
+//@ func (*codecV1) EncodeRegionRange
+//@   prop C15
+//@   bytes: key
+//@   modifies nothing
+//@   ensures result0 == menc(start) && result1 == ite(end != "", menc(end), "")
+//@ func (*codecV1) DecodeRegionRange
+//@   prop C15
+//@   bytes: key
+//@   modifies nothing
+//@   ensures result2 == nil ==> (encodedStart == "" ==> result0 == "") && (encodedStart != "" ==> menc(result0) == encodedStart) && (encodedEnd == "" ==> result1 == "") && (encodedEnd != "" ==> menc(result1) == encodedEnd)
